@@ -54,11 +54,7 @@ def tieUpSubsec (delta_up delta_down : Int) : Bool :=
 
 /-- `DateTime<Utc>::timestamp_nanos_opt` on `(timestamp(), timestamp_subsec_nanos())` -/
 def timestamp_nanos_opt (timestamp subsec : Int) : Option Int :=
-  let ts := if timestamp < 0 then timestamp + 1 else timestamp
-  let sn := if timestamp < 0 then subsec - STAMP_SCALE else subsec
-  match optI64 (ts * STAMP_SCALE) with
-  | none => none
-  | some p => optI64 (p + sn)
+  optI64 (timestamp * STAMP_SCALE + subsec)
 
 /-- the stamp `DurationRound for DateTime<Tz>` works on: `overflowing_naive_local()` (UTC seconds plus
 the offset, same sub-second field) read as if it were UTC.  `off = 0` for `NaiveDateTime`. -/
